@@ -175,7 +175,7 @@ template <class E> struct Runner {
     double hang_limit() const {
         const char *e = getenv("VERIF_HANG_S");
         if (e && atof(e) > 0) return atof(e);
-        return opt.thorough ? 300.0 : 12.0;
+        return opt.thorough ? 600.0 : 12.0;
     }
     // waits for pid; kills it after limit seconds.  returns true if it had to be killed
     static bool wait_limited(pid_t pid, double limit, int &st) {
